@@ -58,8 +58,11 @@ def residualSites : List String := [
   "sequence_number_to_entry.get(&sequence_number).unwrap()",
   -- counting invariant: cursed + blessed ≤ envelopes seen (`Valid.maxInscriptions`)
   "inscription count try_into::<i32>().unwrap()",
-  -- output entries have one element per output (length bookkeeping through the flotsam loop)
+  -- local facts of the inscription updater, not yet proved: output entries have one element per
+  -- output; a new flotsam implies id_counter ≥ 1; lost flotsam goes to the null outpoint
   "output_utxo_entries[vout]",
+  "division by zero",
+  "assert!(Index::is_special_outpoint(satpoint.outpoint))",
   -- C08 supply conservation: every balance and burned total of a rune is < 2^128, burned ids exist
   "lot overflow",
   "entry.burned.checked_add(burned).unwrap()",
